@@ -206,32 +206,40 @@ def judge_model(ctx, case, resp):
 
 
 DEVIATIONS = [("fd_null", "C04/boxed-function-definition", lambda m: model_has_fd(m)),
+              ("fd_dynamic", "C04/boxed-function-definition", lambda m: model_has_fd(m)),
               ("bkm_service_value", "C04/bkm-requires-service-bound-to-value",
                lambda m: any(idx_kind(m, r) == "service" for b in m["bkms"] for r in b["reqK"])),
               ("ctx_flat", "C04/nested-context-entries-leak", lambda m: True)]
 
 
 def diagnose(ctx, case, name, inp, got, want, kind, form, labels):
-    """A disagreement with the reference gets the signature of a documented defect only when the reference *with that
-    single deviation* was actually driven through the deviating step (fired) and then predicts the SUT's value."""
+    """A disagreement with the reference gets the signature of documented defects only when the reference *with exactly
+    those deviations* was actually driven through every deviating step (fired == the set) and then predicts the SUT's value."""
+    import itertools
     m = case["model"]
     rc = ref_ctx(inp["ctx"])
     msg = "%s %r with input %r\n  expected %s\n  actual   %s\n%s" % (kind, name, inp["ctx"], val.show(want), val.show(got), case["xml"])
     undetermined = False
-    for flag, sig, applicable in DEVIATIONS:
-        if not applicable(m):
-            continue
-        st, v, fired = reference(m, name, rc, dev=(flag,))
-        if flag in fired:
-            if st == "ok" and val.same(got, v):
-                labels.append("known:" + sig.split("/")[1])
-                return Fail(sig, msg)
+    flags = [(flag, sig) for flag, sig, applicable in DEVIATIONS if applicable(m)] + [("null_left_eq", None)]
+    for r in range(1, len(flags) + 1):
+        for combo in itertools.combinations(flags, r):
+            dev = tuple(f for f, _ in combo)
+            if "fd_null" in dev and "fd_dynamic" in dev:
+                continue
+            st, v, fired = reference(m, name, rc, dev=dev)
+            if fired != set(dev):
+                continue
             if st == "unspecified":
                 undetermined = True
-    st, v, fired = reference(m, name, rc, dev=("null_left_eq",))
-    if "null_left_eq" in fired and (st == "unspecified" or val.same(got, v)):
-        labels.append("feel-known:null-left-equality(C01/C09)")
-        return None
+                continue
+            if val.same(got, v):
+                sigs = sorted({sig.split("/")[1] for _, sig in combo if sig})
+                if not sigs:
+                    labels.append("feel-known:null-left-equality(C01/C09)")
+                    return None
+                for x in sigs:
+                    labels.append("known:" + x)
+                return Fail("C04/" + "+".join(sigs), msg)
     if undetermined:
         # behind a documented defect the DMN text no longer decides the value: nothing is asserted for this case
         labels.append("undetermined-behind-known-finding")
@@ -310,9 +318,9 @@ def setup(ctx):
 
 
 def run(ctx):
-    ctx.forall(ctx.p_any, ctx.scale(1200, 40000), batch=50)
+    ctx.forall(ctx.p_any, ctx.scale(3600, 40000), batch=50)
     for shp in DG.SHAPES:
-        ctx.forall(ctx.p_shapes[shp], ctx.scale(60, 2500), batch=30)
+        ctx.forall(ctx.p_shapes[shp], ctx.scale(150, 2500), batch=30)
 
 
 if __name__ == "__main__":
